@@ -195,16 +195,17 @@ def arg_field_origin(body, op, prov=None):
 
 # ---------------------------------------------------------------------------------------------------
 # G4+G6: linear use of a by-value local (moved into exactly one consuming call, never dropped while live)
-from .sim import Sim, Budget
+from .sim import Sim, Budget, pkey
 
 
 class Linear(Sim):
     """automaton state: local currently holding the value | ('C', what) consumed | 'R' returned"""
 
-    def __init__(self, body, start_local, carriers=None):
+    def __init__(self, body, start_local, carriers=None, lend=None):
         super().__init__(body)
         self.start = start_local
         self.carriers = carriers or (lambda cs: False)
+        self.lend = lend            # optional predicate(cs, arg index): lending `&value` to this call hands the value on (it is read there)
         self.carried = {}
         self.consumers = {}     # bb -> (term, arg index)
         self.stored = {}        # (bb, idx) -> stmt
@@ -245,6 +246,15 @@ class Linear(Sim):
                         return [(t["dest"]["l"], {})]
                     self.consumers[bb] = (t, i)
                     return [(("C", bb), {})]
+            if self.lend is not None:
+                from .facts import CallSite
+                for i, arg in enumerate(t.get("args", [])):
+                    pl = op_place(arg)
+                    v = env.get(pkey(pl)) if pl is not None else None
+                    if isinstance(v, tuple) and v[0] in ("sref", "mref") and v[1] == str(a) and self.lend(CallSite(self.b, bb, t), i):
+                        self.consumers[bb] = (t, i)
+                        self.lent = getattr(self, "lent", set()) | {bb}
+                        return [(("C", bb), {})]
         return None
 
     def on_drop(self, bb, t, a, env):
@@ -258,13 +268,13 @@ class Linear(Sim):
         return self
 
 
-def check_linear(ctx, rule, body, local, allowed, what="entry", key_extra="", carriers=None):
+def check_linear(ctx, rule, body, local, allowed, what="entry", key_extra="", carriers=None, lend=None):
     """the value in `local` is, on every normal path, moved into exactly one call satisfying `allowed`
     (or handed back through the return place), and never dropped while live."""
     from .facts import CallSite
     key = fnkey(body) + "#" + what + key_extra
     try:
-        lin = Linear(body, local, carriers).go()
+        lin = Linear(body, local, carriers, lend).go()
     except Budget as e:
         ctx.bad(rule, key + "-budget", loc(body), str(e))
         return None
@@ -275,7 +285,7 @@ def check_linear(ctx, rule, body, local, allowed, what="entry", key_extra="", ca
                 "the %s can be dropped without being handed on (Drop at bb%d while it still holds the value)" % (what, bb), path=path)
     for bb, (t, i) in lin.consumers.items():
         cs = CallSite(body, bb, t)
-        permitted = allowed(cs, i)       # (evaluated once: the predicates of some rules record what they accept)
+        permitted = allowed(cs, i) or bb in getattr(lin, "lent", ())       # (evaluated once: the predicates of some rules record what they accept)
         if not permitted and _scoped_continuation(ctx, rule, body, cs, i, allowed, what, key_extra, carriers):
             continue
         if not permitted and _private_forwarder(ctx, rule, body, cs, i, allowed, what, key_extra, carriers):
